@@ -284,6 +284,13 @@ func runProgram(kind string, c gnet.Conn, ci *connInfo) (out []byte, action gnet
 			}
 			continue
 		}
+		if kv[0] == "dup" && (ci == nil || ci.closedCB > 0 || ci.fdClosed) {
+			// the connection has already been closed inside this callback (a failing write, an EventLoop.Close):
+			// Conn.Dup does not look at the state of the connection and would act on a descriptor number the
+			// connection no longer owns. What a handler does with a connection after its OnClose is outside the
+			// properties; the hop is not executed (see DESIGN.md, section 8, observations)
+			continue
+		}
 		st.log = append(st.log, "hop "+h) // what the handler calls (input) ...
 		res := runHop(kv[0], arg, c, ci)
 		st.log = append(st.log, "res "+res) // ... and what it gets back (prediction), after the system calls it caused
